@@ -11,6 +11,8 @@ use serde_json::{json, Value};
 #[derive(Debug, Clone)]
 pub enum Item {
     Tok(String),
+    /// a token that is an identifier by the grammar (whatever its spelling)
+    Ident(String),
     Mark { kind: char, key: u32, refk: u32, delta: u32 },
     End(u32),
 }
@@ -36,6 +38,7 @@ pub fn load_programs(path: &str) -> Vec<Program> {
                     let a = it.as_array().unwrap();
                     match a[0].as_str().unwrap() {
                         "t" => Item::Tok(a[1].as_str().unwrap().to_string()),
+                        "i" => Item::Ident(a[1].as_str().unwrap().to_string()),
                         "m" => Item::Mark {
                             kind: a[1].as_str().unwrap().chars().next().unwrap(),
                             key: a[2].as_u64().unwrap() as u32,
@@ -59,6 +62,8 @@ pub struct Opts {
     pub directives: bool,
     pub regions: bool,
     pub tight: bool,
+    /// comments and directives are followed by a lone CR instead of LF
+    pub cr_comments: bool,
     /// spacing mode: 0 = one space everywhere, 1 = pretty (new line per marked token, indented), 2 = random mixture,
     /// 3 = every gap a line break, 4 = CRLF pretty with tabs
     pub spacing_mode: u32,
@@ -84,10 +89,9 @@ pub struct Rendered {
     pub regions: Vec<(usize, usize)>,
     /// number of inserted comments / directives
     pub inserted: usize,
+    /// ordinals (among the plain tokens) of the tokens that are identifiers by the grammar
+    pub idents: Vec<usize>,
 }
-
-/// line break used in gaps that touch a comment or directive (kept by every re-layout)
-const NLC: &str = "\n";
 
 const ML_BODIES: [&[&str]; 6] = [&["line one", "line two"], &["a"], &["  indented more", "back"], &["x", "", "y"], &["trailing   ", "z"], &["'' quotes ''", "q"]];
 
@@ -124,10 +128,14 @@ pub fn render(p: &Program, deco: u64, spacing: u64, o: &Opts) -> Rendered {
     let mut depth_at: Vec<u32> = vec![]; // pretty-print depth per token
     let mut kind_of: std::collections::HashMap<u32, char> = Default::default();
     let mut pending: Vec<(char, u32, u32, u32)> = vec![];
+    let mut idents: Vec<usize> = vec![];
     for it in &p.items {
+        if let Item::Ident(_) = it {
+            idents.push(toks.len());
+        }
         match it {
             Item::Mark { kind, key, refk, delta } => pending.push((*kind, *key, *refk, *delta)),
-            Item::Tok(t) => {
+            Item::Tok(t) | Item::Ident(t) => {
                 let ord = toks.len();
                 for (kind, key, refk, delta) in pending.drain(..) {
                     marks.push(MarkAt { kind, key, refk, delta, ordinal: ord });
@@ -152,8 +160,8 @@ pub fn render(p: &Program, deco: u64, spacing: u64, o: &Opts) -> Rendered {
     let mut mark_at_tok: std::collections::HashMap<usize, &MarkAt> = Default::default();
     for m in &marks {
         let d = key_depth.get(&m.refk).copied().unwrap_or(0) + if m.kind == 'C' || m.kind == 'B' { 0 } else { m.delta };
-        key_depth.insert(m.key, if m.kind == 'R' || m.kind == 'A' { key_depth.get(&m.refk).copied().unwrap_or(0) + 1 } else { d });
-        if (m.kind != 'R' && m.kind != 'A') || !mark_at_tok.contains_key(&m.ordinal) {
+        key_depth.insert(m.key, if matches!(m.kind, 'R' | 'A' | 'T') { key_depth.get(&m.refk).copied().unwrap_or(0) + 1 } else { d });
+        if !matches!(m.kind, 'R' | 'A' | 'T') || !mark_at_tok.contains_key(&m.ordinal) {
             mark_at_tok.entry(m.ordinal).or_insert(m);
         }
     }
@@ -161,7 +169,7 @@ pub fn render(p: &Program, deco: u64, spacing: u64, o: &Opts) -> Rendered {
     for i in 0..toks.len() {
         if let Some(m) = mark_at_tok.get(&i) {
             cur_depth = key_depth.get(&m.key).copied().unwrap_or(cur_depth);
-            if m.kind == 'R' || m.kind == 'A' {
+            if matches!(m.kind, 'R' | 'A' | 'T') {
                 cur_depth = cur_depth.saturating_sub(1).max(key_depth.get(&m.refk).copied().unwrap_or(0));
             }
         }
@@ -239,30 +247,38 @@ pub fn render(p: &Program, deco: u64, spacing: u64, o: &Opts) -> Rendered {
     let mut regions = vec![];
     let mut region_start: Option<usize> = None;
     let mut inserted = 0usize;
+    // line break used in gaps that touch a comment or directive (part of the decoration: kept by every re-layout)
+    let nlc: &str = if o.cr_comments { "\r" } else { "\n" };
     let crlf = o.spacing_mode == 4;
-    let nl = if crlf { "\r\n" } else { "\n" };
+    let nl = if crlf { "\r\n" } else if o.spacing_mode == 5 { "\r" } else { "\n" };
     let indent_unit = if o.spacing_mode == 4 { "\t" } else { "  " };
     let mut need_newline = false; // after a line comment
     for i in 0..n {
         let mut r = gap_rng(spacing, i, 3);
-        let marked_line_start = mark_at_tok.get(&i).is_some_and(|m| matches!(m.kind, 'S' | 'D' | 'C' | 'R' | 'A')) && !(matches!(mark_at_tok[&i].kind, 'R' | 'A') && i > 0 && !is_marked(i) && !matches!(toks[i].as_str(), "begin" | "const" | "var" | "type" | "threadvar" | "resourcestring" | "private" | "protected" | "public" | "published" | "strict" | "initialization" | "finalization" | "procedure" | "function" | "constructor" | "destructor" | "class"));
+        let marked_line_start = mark_at_tok.get(&i).is_some_and(|m| matches!(m.kind, 'S' | 'D' | 'C' | 'R' | 'A' | 'T')) && !(matches!(mark_at_tok[&i].kind, 'R' | 'A' | 'T') && i > 0 && !is_marked(i) && !matches!(toks[i].as_str(), "begin" | "const" | "var" | "type" | "threadvar" | "resourcestring" | "private" | "protected" | "public" | "published" | "strict" | "initialization" | "finalization" | "procedure" | "function" | "constructor" | "destructor" | "class"));
         let ind: String = indent_unit.repeat(depth_at[i] as usize);
         let ind_c: String = "  ".repeat(depth_at[i] as usize);
         // the spacing-dependent gap (what C06 says must not matter)
+        let after_literal = i > 0 && toks[i - 1].starts_with(|c: char| c.is_ascii_digit() || matches!(c, '$' | '%' | '\'' | '#'));
         let plain_gap = |r: &mut StdRng, force_nl: bool| -> String {
             if i == 0 {
                 return String::new();
             }
+            if after_literal && !force_nl {
+                // after a literal the formatter keeps "at most one" space of the input, line breaks included (known
+                // finding F8, probed separately): every layout puts exactly one space here
+                return " ".to_string();
+            }
             if force_nl {
                 return match o.spacing_mode {
                     0 | 3 => nl.to_string(),
-                    1 | 4 => format!("{nl}{ind}"),
+                    1 | 4 | 5 => format!("{nl}{ind}"),
                     _ => format!("{nl}{}", " ".repeat(r.gen_range(0..9))),
                 };
             }
             match o.spacing_mode {
                 0 => " ".to_string(),
-                1 | 4 => if marked_line_start { format!("{nl}{ind}") } else { " ".to_string() },
+                1 | 4 | 5 => if marked_line_start { format!("{nl}{ind}") } else { " ".to_string() },
                 3 => nl.to_string(),
                 _ => match r.gen_range(0..100) {
                     0..=54 => " ".to_string(),
@@ -280,11 +296,11 @@ pub fn render(p: &Program, deco: u64, spacing: u64, o: &Opts) -> Rendered {
         if let Some((a, _, off, _)) = &region_open {
             if *a == i {
                 if i > 0 {
-                    text.push_str(NLC);
+                    text.push_str(nlc);
                 }
                 region_start = Some(text.len());
                 text.push_str(off);
-                text.push_str(NLC);
+                text.push_str(nlc);
                 need_newline = false;
                 inserted += 1;
             }
@@ -293,10 +309,10 @@ pub fn render(p: &Program, deco: u64, spacing: u64, o: &Opts) -> Rendered {
         // directives before this token (own lines)
         for d in &dir_before[i] {
             if !text.is_empty() && !text.ends_with('\n') {
-                text.push_str(NLC);
+                text.push_str(nlc);
             }
             text.push_str(d);
-            text.push_str(NLC);
+            text.push_str(nlc);
             need_newline = false;
             inserted += 1;
         }
@@ -319,17 +335,17 @@ pub fn render(p: &Program, deco: u64, spacing: u64, o: &Opts) -> Rendered {
             Deco::EolComment(c) => {
                 text.push(' ');
                 text.push_str(c);
-                text.push_str(NLC);
+                text.push_str(nlc);
                 text.push_str(&ind_c);
                 inserted += 1;
             }
             Deco::OwnLineComment(c) => {
                 if !text.ends_with('\n') {
-                    text.push_str(NLC);
+                    text.push_str(nlc);
                 }
                 text.push_str(&ind_c);
                 text.push_str(c);
-                text.push_str(NLC);
+                text.push_str(nlc);
                 text.push_str(&ind_c);
                 inserted += 1;
             }
@@ -341,11 +357,11 @@ pub fn render(p: &Program, deco: u64, spacing: u64, o: &Opts) -> Rendered {
             }
             Deco::MultiBlock(c) => {
                 if !text.ends_with('\n') {
-                    text.push_str(NLC);
+                    text.push_str(nlc);
                 }
                 text.push_str(&ind_c);
                 text.push_str(c);
-                text.push_str(NLC);
+                text.push_str(nlc);
                 text.push_str(&ind_c);
                 inserted += 1;
             }
@@ -368,10 +384,10 @@ pub fn render(p: &Program, deco: u64, spacing: u64, o: &Opts) -> Rendered {
         if let Some((_, b, _, on)) = &region_open {
             if *b == i {
                 if let Some(s) = region_start.take() {
-                    text.push_str(NLC);
+                    text.push_str(nlc);
                     text.push_str(on);
                     regions.push((s, text.len()));
-                    text.push_str(NLC);
+                    text.push_str(nlc);
                     inserted += 1;
                 }
             }
@@ -379,7 +395,7 @@ pub fn render(p: &Program, deco: u64, spacing: u64, o: &Opts) -> Rendered {
     }
     for d in &dir_before[n] {
         if !text.ends_with('\n') {
-            text.push_str(NLC);
+            text.push_str(nlc);
         }
         text.push_str(d);
         inserted += 1;
@@ -387,10 +403,10 @@ pub fn render(p: &Program, deco: u64, spacing: u64, o: &Opts) -> Rendered {
     if let Some(s) = region_start.take() {
         regions.push((s, text.len()));
     }
-    if o.spacing_mode == 1 || o.spacing_mode == 4 {
+    if o.spacing_mode == 1 || o.spacing_mode == 4 || o.spacing_mode == 5 {
         text.push_str(nl);
     }
-    Rendered { text, plain: toks, marks, regions, inserted }
+    Rendered { text, plain: toks, marks, regions, inserted, idents }
 }
 
 /// Does `text` scan to exactly the intended plain tokens (comments and directives aside)? (R4: the harness never
@@ -457,6 +473,7 @@ impl Suite for Programs {
                     "regions": r.regions,
                     "alts": alts,
                     "decorated": r.inserted,
+                    "idents": r.idents,
                 }
             })
         } else {
